@@ -159,21 +159,32 @@ def float_typed(prms, rng):
 
 def numpy_typed(prms, rng):
     """The same parameter values as NumPy scalars (values read from arrays / data frames are of these types):
-    np.int64 / np.int32 for integers, np.float64 / np.float32 (only when exactly representable) for floats."""
+    np.int64 / np.int32 / np.int16 for integers, np.float64 for floats."""
     def conv(v):
         if isinstance(v, bool) or v is None or isinstance(v, str):
             return v
         if isinstance(v, int):
-            return rng.choice([np.int64, np.int32, np.int16 if abs(v) < 30000 else np.int64])(v)
+            return rng.choice([np.int64, np.int32, np.int16 if abs(v) < 10000 else np.int64])(v)
         if isinstance(v, float):
-            f32 = np.float32(v)
-            return f32 if (rng.random() < 0.4 and float(f32) == v) else np.float64(v)
+            # binary64 only: a float32 scalar demotes whatever Python float it is added to (NumPy's promotion rules), so that
+            # e.g. MSA + buffer would be rounded to single precision - a property of NumPy's casting, which the exact model
+            # cannot and need not follow (false alarm of thorough sweep #4, DESIGN 11.16)
+            rng.random()
+            return np.float64(v)
         if isinstance(v, dict):
             return {k: conv(x) for k, x in v.items()}
         if isinstance(v, list):
             return [conv(x) if not isinstance(x, str) else x for x in v]
         return v
-    return {k: (conv(v) if rng.random() < 0.7 else v) for k, v in prms.items()}
+    out = {k: (conv(v) if rng.random() < 0.7 else v) for k, v in prms.items()}
+    # the container of the separation tables: a tuple (an immutable constant in the caller's code) holds the same limits
+    for key in ('MIN_SEP_LIMS', 'MIN_SEP_VALS'):
+        if rng.random() < 0.5:
+            from . import common as _c
+            val = out.get(key, _c.packaged_defaults()[key])
+            if isinstance(val, list):
+                out[key] = tuple(val)
+    return out
 
 
 def frame_variant(rng, rows):
